@@ -49,9 +49,9 @@ def handle (toks : List String) : String :=
     match parseHex h, ne.toNat? with
     | some bs, some nelems =>
       match thriftReadListBegin bs with
-      | .error e => showErr e
+      | .error _ => "ERR"
       | .ok (li, rest) =>
-        if li.elemType ≠ 12 then "ERR:other"
+        if li.elemType ≠ 12 then "ERR"
         else if rest ≠ [] then "SKIP"
         else if li.size = nelems then s!"ok {li.size}"
         else if li.size > nelems then "ERR"
